@@ -17,6 +17,12 @@ theorem tl_roundtrip (S : Schema) (hwf : S.wf = true) (t : Ty) (v : Val) (e rest
     decTy S fuel t (e ++ rest) = .ok (v, rest) :=
   (rt_all S hwf).1 v t e rest fuel henc hfuel
 
+/-- Generic (`!X`) wrappers — invokeWithLayer, initConnection, … — are covered by the same theorem:
+the constructor of the object held by the generic field is a parameter of the schema
+(`Schema.generic`), irrelevant to well-formedness. -/
+theorem wf_ignores_generic (S : Schema) (g : Option Nat) : ({ S with generic := g } : Schema).wf = S.wf :=
+  wf_generic S g
+
 /-- Re-encoding the decoded value yields identical bytes. -/
 theorem tl_reencode_identical (S : Schema) (hwf : S.wf = true) (t : Ty) (v : Val) (e rest : Bytes)
     (henc : encTy S t v = some e) :
